@@ -24,56 +24,88 @@ from harness.common import exc_name
 
 PID = "C06"
 TITLE = "Histogram fill puts every value into exactly the right cell and conserves weight"
-LEAN_MODULES = ["LenaModel.Props.C06", "LenaModel.Props.C06Ext"]
+LEAN_MODULES = ["LenaModel.Props.C06", "LenaModel.Props.C06Ext", "LenaModel.Props.C06At"]
 LEAN_SOURCES = ["LenaModel/Model/C06.lean", "LenaModel/Model/C06Spec.lean", "LenaModel/Lemmas/C06.lean",
-                "LenaModel/Lemmas/C06Ext.lean", "LenaModel/Props/C06.lean", "LenaModel/Props/C06Ext.lean"]
+                "LenaModel/Lemmas/C06Ext.lean", "LenaModel/Props/C06.lean", "LenaModel/Props/C06Ext.lean",
+                "LenaModel/Props/C06At.lean"]
 DRIVER = "drivers/C06.lean"
+LEAN_MODULES_NOTE = "Props/C06.lean (GuessesOK forms), Props/C06Ext.lean (any guess; spec interpreter; element), Props/C06At.lean (weakest hypothesis, lifts)"
 THEOREMS = [
+    # (4) the bin index
     "Lena.C06.bin1d_spec",
     "Lena.C06.bin1d_halfopen",
     "Lena.C06.bin1d_guess_independent",
-    "Lena.C06.bin1d_returns",
+    "Lena.C06.bin1d_ok_or_unmodelled",
     "Lena.C06.bin1d_interp",
+    "Lena.C06.roundedGuess_in_range",
+    "Lena.C06.bin1d_rounded",
     "Lena.C06.getBinOnValue_spec",
-    "Lena.C06.getBinOnValue_wrong_length",
+    "Lena.C06.getBinOnValue_spec_at",
+    "Lena.C06.getBinOnValue_ok_or_unmodelled",
+    # (1)-(3) one fill
     "Lena.C06.inCell_unique",
     "Lena.C06.fill_exact_cell",
     "Lena.C06.fill_out_of_range",
     "Lena.C06.fill_frame",
-    "Lena.C06.fill_wrong_length",
+    "Lena.C06.fill_exact_cell_at",
+    "Lena.C06.fill_out_of_range_at",
+    "Lena.C06.fill_frame_at",
+    "Lena.C06.fill_eq_specFill",
+    "Lena.C06.fill_eq_specFill_at",
+    "Lena.C06.fill_ok_or_unmodelled",
+    "Lena.C06.fill_interp",
+    "Lena.C06.fill_rounded",
+    # (5) sequences, structure
     "Lena.C06.fill_conserves",
-    "Lena.C06.fill_wf",
     "Lena.C06.fillAll_conserves",
     "Lena.C06.fillAll_ok",
+    "Lena.C06.fillAll_ok_at",
+    "Lena.C06.fillAll_eq_specFillAll",
+    "Lena.C06.fillAll_eq_specFillAll_at",
+    "Lena.C06.fillAll_ok_or_unmodelled",
     "Lena.C06.weight_conserved",
+    "Lena.C06.weight_conserved_at",
+    "Lena.C06.weight_conserved_interp",
+    "Lena.C06.weight_conserved_rounded",
+    # (5) the element
+    "Lena.C06.elem_weight_conserved",
+    "Lena.C06.elem_weight_conserved_at",
+    "Lena.C06.histEl2_run_conserved",
+    "Lena.C06.histEl2_run_conserved_at",
+    "Lena.C06.histEl2_run_ok_or_unmodelled",
+    "Lena.C06.histEl2_run_rounded",
+    # the precondition guard and creation
     "Lena.C06.checkEdgesIncreasing_ok",
     "Lena.C06.checkEdgesIncreasing_err",
     "Lena.C06.mkHist_valid",
     "Lena.C06.mkHist_invalid",
-    "Lena.C06.mkHist_bins",
     "Lena.C06.mkHist_bins_wf",
-    "Lena.C06.bin1d_ok_or_unmodelled",
-    "Lena.C06.bin1d_of_visitedInRange",
+]
+# true by definition, model-internal glue, encoding lemmas, the weak halves (audited, not counted as obligations)
+AUX_THEOREMS = [
+    "Lena.C06.bin1d_returns",                 # weak half: holds for a wrong in-range index too
+    "Lena.C06.bin1d_of_visitedInRange",       # bin1d_ok_or_unmodelled restated (visitedInRange is defined by it)
     "Lena.C06.visitedInRange_of_guessOKAt",
-    "Lena.C06.guessOKAtB_iff",
+    "Lena.C06.guessOKAtB_iff",                # executable twin = GuessOKAt
+    "Lena.C06.guessesOKAtB_iff",
     "Lena.C06.bin1d_of_guessOKAtB",
-    "Lena.C06.bin1d_float",
-    "Lena.C06.roundedGuess_in_range",
-    "Lena.C06.bin1d_rounded",
-    "Lena.C06.getBinOnValue_ok_or_unmodelled",
-    "Lena.C06.fill_ok_or_unmodelled",
-    "Lena.C06.fill_eq_specFill",
-    "Lena.C06.fillAll_eq_specFillAll",
+    "Lena.C06.bin1d_float",                   # an instance for floatGuess; says nothing about floats
+    "Lena.C06.getBinOnValue_wrong_length",
+    "Lena.C06.fill_wrong_length",
+    "Lena.C06.fill_wf",
+    "Lena.C06.mkHist_bins",                   # the literal outer-length test
     "Lena.C06.cellOf?_eq_some_iff",
     "Lena.C06.properList?_iff",
     "Lena.C06.wfB_iff",
-    "Lena.C06.initBinsD_eq",
-    "Lena.C06.histEl2_new_both",
-    "Lena.C06.histEl2_reset_fresh",
-    "Lena.C06.histEl2_run_conserved",
-    "Lena.C06.elem_fill_exact_cell",
+    "Lena.C06.initBinsD_eq",                  # model against model (identity of cells is outside the value model)
+    "Lena.C06.histEl2_new_both",              # rfl
+    "Lena.C06.histEl2_reset_fresh",           # reset and __init__ are the same call by definition
+    "Lena.C06.elem_fill_exact_cell",          # one rewrite from the structure theorems
     "Lena.C06.elem_fill_out_of_range",
-    "Lena.C06.elem_weight_conserved",
+    "Lena.C06.histEl2_run_not_unmodelled",
+    "Lena.C06.interpGuessN_okAt",
+    "Lena.C06.roundedGuessN_okAt",
+    "Lena.C06.fl8_roundingOK",                # a rounding that really rounds satisfies RoundingOK (non-vacuity)
 ]
 TRUSTED = [
     "Lean 4.33.0 kernel; axioms limited to propext, Classical.choice, Quot.sound (audited by #print axioms on every run)",
@@ -1430,82 +1462,88 @@ def nontrivial(case, res):
     return in_cell and guessed
 
 
-def _branch_labels(val, arr):
-    """which exits / guess branches of the search a value takes (from the guess table)"""
-    labs = set()
+def _search_labels(val, arr, labs):
+    """which exits / guess branches of the search a value takes (from the harness's own walk of the loop)"""
     path = guess_path(val, arr)
     for lo, hi, g in path:
-        if g == lo:
-            labs.add("guess==ind_min")
-        elif g == hi:
-            labs.add("guess==ind_max")
-        elif val < arr[g]:
-            labs.add("guess-inside:left")
-        else:
-            labs.add("guess-inside:right")
-    labs.add(f"iterations:{min(len(path), 4)}{'+' if len(path) >= 4 else ''}")
-    if val in arr:
+        labs.add("search:guess==ind_min" if g == lo else "search:guess==ind_max" if g == hi else
+                 "search:guess-inside:left" if val < arr[g] else "search:guess-inside:right")
+    n = len(path)
+    labs.add("search:iterations:" + ("0" if n == 0 else "1-3" if n <= 3 else "4-9" if n <= 9 else "10-63" if n <= 63 else "64+"))
+    if isinstance(val, float) and math.isinf(val):
+        labs.add("value:+-inf")
+    elif val in arr:
         labs.add("value:on-edge")
     elif val < arr[0] or val >= arr[-1]:
         labs.add("value:outside")
     else:
         labs.add("value:inside")
-    return labs
 
 
 def classify(case, res):
+    """at most ~60 distinct labels in total (the evidence keeps the 60 most frequent)"""
     op = case["op"]
     labs = {f"op:{op}"}
+    for k in (case.get("axes_as") or []):
+        labs.add(f"axes-as:{k}")
+    if case.get("edges_as") == "tuple":
+        labs.add("edges-as:tuple")
     if op == "bin1d":
-        labs.add(f"bin1d:family:{case['fam']}")
-        labs.add(f"bin1d:edges:{min(len(case['arr']), 13)}")
+        arr = case["arr"]
+        labs.add(f"family:{case['fam']}")
+        labs.add("edges:" + ("1" if len(arr) == 1 else "2-12" if len(arr) <= 12 else "13-40" if len(arr) <= 40 else "70-400"))
+        labs.add("guesses:" + ("observed-in-real-code" if _trace_setup() is not None else "source-expression-only"))
         if case.get("full"):
-            labs.add("bin1d:GuessOKAt-on-all-states")
-        if all(type(x) is float for x in case["arr"]):
-            labs.add("bin1d:all-floats(Lean Float guess)")
-        if all(type(x) is int for x in case["arr"]):
-            labs.add("bin1d:all-ints(interpGuess)")
-        if len(case["arr"]) >= 2:
+            labs.add("GuessOKAt-on-all-states")
+        if all(type(x) is float for x in arr):
+            labs.add("Lean-Float-guess")
+        if all(type(x) is int for x in arr):
+            labs.add("interpGuess")
+        if len(arr) >= 2:
             for v in case["vals"]:
-                labs |= {"bin1d:" + l for l in _branch_labels(v, case["arr"])}
+                _search_labels(v, arr, labs)
         return sorted(labs)
     if op == "initbins":
-        labs.add(f"initbins:deepcopy={case['deep']}:" + ("error:" + res["e"] if "e" in res else "ok"))
+        labs.add(f"initbins:deepcopy={case['deep']}")
+        if "e" in res:
+            labs.add("error:init_bins:" + res["e"])
         return sorted(labs)
     axes = _valid_axes(case["edges"])
     if op == "elem2":
-        labs.add("elem2:" + ("bins+make_bins" if case["bins"] is not None and case["mk"] is not None else
-                             "bins" if case["bins"] is not None else "make_bins" if case["mk"] is not None else
-                             "initial_value=" + repr(case["init"])))
+        labs.add("init:" + ("bins+make_bins" if case["bins"] is not None and case["mk"] is not None else
+                            "bins" if case["bins"] is not None else "make_bins" if case["mk"] is not None else
+                            "initial_value" if case["init"] != 0 else "default"))
         nres = sum(f.get("rb", 0) for f in case["fills"]) + case.get("ra", 0)
-        labs.add(f"elem2:resets={min(nres, 3)}")
+        labs.add(f"resets:{min(nres, 3)}")
+    else:
+        labs.add("init:" + ("bins" if case["bins"] is not None else "initial_value" if case["init"] != 0 else "default"))
     if "e" in res:
-        labs.add(f"{op}:{res.get('phase')}-error:{res['e']}")
+        labs.add(f"error:{res.get('phase')}:{res['e']}")
     if case.get("bad"):
-        labs.add(f"{op}:malformed-{case['bad']}")
+        labs.add(f"malformed:{case['bad']}")
     if axes is None:
-        labs.add(f"{op}:invalid-edges")
+        labs.add("invalid-edges")
         return sorted(labs)
-    labs.add(f"{op}:dim={len(axes)}:{'flat' if axes is not case['edges'] else 'nested'}")
-    if op != "elem2":
-        labs.add(f"{op}:{'given-bins' if case['bins'] is not None else 'init=' + repr(case['init'])}")
+    labs.add(f"dim:{len(axes)}:{'flat' if axes is not case['edges'] else 'nested'}")
+    if case.get("full"):
+        labs.add("GuessesOKAt-on-all-states")
     for fam in set(case["fam"].split("+")):
-        labs.add(f"{op}:family:{fam}")
+        labs.add(f"family:{fam}")
     for f in case["fills"]:
         c = f["c"]
         xs = [c["s"]] if "s" in c else c["t"]
         if f.get("form", "ok") != "ok":
-            labs.add(f"{op}:coord-form:{f['form']}")
+            labs.add(f"coord-form:{f['form']}")
             continue
         if len(xs) != len(axes):
             continue
-        labs.add(f"{op}:fill:" + ("in-cell" if _cell_of(xs, axes) is not None else "out-of-range"))
+        labs.add("fill:" + ("in-cell" if _cell_of(xs, axes) is not None else "out-of-range"))
         for x, a in zip(xs, axes):
-            labs |= {f"{op}:" + l for l in _branch_labels(x, a) if not l.startswith("iterations")}
+            _search_labels(x, a, labs)
     if op == "hist":
         for st in res.get("steps", []):
             if "e" in st:
-                labs.add(f"hist:fill-error:{st['e']}")
+                labs.add(f"error:fill:{st['e']}")
     return sorted(labs)
 
 
